@@ -50,7 +50,7 @@ finally:
 out = os.path.join(ROOT, 'seeded', name)
 os.makedirs(out, exist_ok=True)
 for f in ('patch.diff', 'demo.py', 'notes.md'):
-    if os.path.exists(os.path.join(src, f)):
+    if os.path.exists(os.path.join(src, f)) and os.path.realpath(os.path.join(src, f)) != os.path.realpath(os.path.join(out, f)):
         shutil.copy(os.path.join(src, f), os.path.join(out, f))
 old = {}
 if os.path.exists(os.path.join(out, 'meta.json')):
